@@ -68,14 +68,14 @@ def cg(
             f'got {initial_value.shape, right_hand_side.shape}'
         )
 
+    # assign starting value to the solution
+    solution = initial_value.clone() if initial_value is not None else right_hand_side.clone()
+
     # initial residual
-    residual = right_hand_side - operator(initial_value)[0] if initial_value is not None else right_hand_side.clone()
+    residual = right_hand_side - operator(solution)[0]
 
     # initialize conjugate vector
     conjugate_vector = residual.clone()
-
-    # assign starting value to the solution
-    solution = initial_value.clone() if initial_value is not None else right_hand_side.clone()
 
     # for the case where the residual is exactly zero
     if torch.vdot(residual.flatten(), residual.flatten()) == 0:
